@@ -29,6 +29,7 @@ NATIVE_APPEND = {
     "mla/src/layers/position.rs": "position",
     "mla/src/crypto/aesgcm.rs": "aesgcm",
     "mla/src/crypto/ecc.rs": "ecc",
+    "bindings/C/src/lib.rs": "cbind",
 }
 
 SIZES = {"u8": 1, "bool": 1, "u16": 2, "u32": 4, "i32": 4, "u64": 8, "i64": 8, "usize": 8, "u128": 16}
@@ -53,7 +54,7 @@ def decode(vals, sig):
     return out
 
 
-TEST_PREFIX = {"encrypt": "layers::encrypt::", "compress": "layers::compress::", "raw": "layers::raw::",
+TEST_PREFIX = {"cbind": "", "encrypt": "layers::encrypt::", "compress": "layers::compress::", "raw": "layers::raw::",
                "position": "layers::position::", "lib": "", "aesgcm": "crypto::aesgcm::", "ecc": "crypto::ecc::"}
 
 
@@ -68,9 +69,16 @@ def build_native(ov):
     if os.path.isdir(nat):
         return nat
     os.makedirs(nat)
-    for crate in ("mla", "curve25519-parser"):
+    for crate in ("mla", "curve25519-parser", os.path.join("bindings", "C")):
         shutil.copytree(os.path.join(REPO, crate), os.path.join(nat, crate),
                         ignore=shutil.ignore_patterns("target", "benches"))
+    # bindings/C as its own workspace root
+    p = os.path.join(nat, "bindings", "C", "Cargo.toml")
+    t = open(p).read()
+    t = overlay._strip_section(t, r"^\[lints\]")
+    t += "\n[workspace]\n"
+    open(p, "w").write(t)
+    shutil.copy(os.path.join(REPO, "Cargo.lock"), os.path.join(nat, "bindings", "C", "Cargo.lock"))
     os.symlink(os.path.join(REPO, "samples"), os.path.join(nat, "samples"))
     p = os.path.join(nat, "mla", "Cargo.toml")
     t = open(p).read()
@@ -114,9 +122,12 @@ def run_native(ov, template, values, outdir, tag, profiles=("dev", "release"), s
         if scaled:
             cmd += ["--features", "mla_verif"]
         cmd += ["--", full_test_path(template), "--exact", "--nocapture", "--test-threads", "1"]
+        is_c = template.startswith("verif_replay_cbind")
+        if is_c and scaled:
+            cmd[-2:] = ["--features", "mla/mla_verif"] if cmd[-2] == "--features" else cmd[-2:]
         with open(log, "w") as lf:
             try:
-                p = subprocess.run(cmd, cwd=os.path.join(nat, "mla"), env=env, stdout=lf, stderr=subprocess.STDOUT, timeout=1500)
+                p = subprocess.run(cmd, cwd=os.path.join(nat, "bindings", "C") if is_c else os.path.join(nat, "mla"), env=env, stdout=lf, stderr=subprocess.STDOUT, timeout=1500)
                 rc = p.returncode
             except subprocess.TimeoutExpired:
                 rc = -9
